@@ -240,3 +240,91 @@ func p4infoOracle(repoDir string) (string, error) {
 	sb.WriteString("\treturn 0\n}\n")
 	return sb.String(), nil
 }
+
+// ---- static obligation: the committed pipeline constants are those of the shipped p4info ----
+
+func camelP4(name string) string {
+	var sb strings.Builder
+	up := true
+	for _, r := range name {
+		if r == '.' || r == '_' {
+			up = true
+			continue
+		}
+		if up {
+			sb.WriteString(strings.ToUpper(string(r)))
+			up = false
+		} else {
+			sb.WriteRune(r)
+		}
+	}
+	return sb.String()
+}
+
+// verifyConstants compares internal/p4constants/p4constants.go (parsed, not executed) with the
+// p4info file: every table, action, meter, counter and match field of the p4info must have its
+// constant with the same numeric ID (C16, "the constants compiled into the agent are exactly those
+// derived from the shipped P4Info"). One obligation per object; decided syntactically.
+func verifyConstants(repoDir string) *FuncResult {
+	res := &FuncResult{Key: "constants:internal/p4constants"}
+	b, err := os.ReadFile(filepath.Join(repoDir, "conf", "p4", "bin", "p4info.txt"))
+	if err != nil {
+		res.Err = err.Error()
+		return res
+	}
+	root, err := parseTextProto(string(b))
+	if err != nil {
+		res.Err = err.Error()
+		return res
+	}
+	src, err := os.ReadFile(filepath.Join(repoDir, "internal", "p4constants", "p4constants.go"))
+	if err != nil {
+		res.Err = err.Error()
+		return res
+	}
+	consts := map[string]string{}
+	for _, l := range strings.Split(string(src), "\n") {
+		f := strings.Fields(l)
+		// Name uint32 = 123   |  Name string = "x"
+		if len(f) == 4 && f[2] == "=" && (f[1] == "uint32" || f[1] == "uint64") {
+			consts[f[0]] = f[3]
+		}
+	}
+	check := func(kind, goName string, id int64) {
+		o := &Obligation{Name: "constants/" + kind + "/" + goName, Kind: "constants", Label: "C16.constants", Src: "internal/p4constants/p4constants.go"}
+		got, ok := consts[goName]
+		switch {
+		case !ok:
+			o.Status, o.Model = "sat", fmt.Sprintf("p4info declares %s %s with id %d; no constant %s in p4constants.go", kind, goName, id, goName)
+		case got != fmt.Sprint(id):
+			o.Status, o.Model = "sat", fmt.Sprintf("constant %s is %s, the shipped p4info says %d", goName, got, id)
+		default:
+			o.Status, o.Solver = "unsat", "syntactic"
+		}
+		res.Obls = append(res.Obls, o)
+	}
+	for _, t := range root.kids["tables"] {
+		pre := t.kids["preamble"][0]
+		tn := camelP4(pre.str("name"))
+		check("table", "Table"+tn, pre.num("id"))
+		for _, mf := range t.kids["match_fields"] {
+			check("match-field", "Hdr"+tn+camelP4(mf.str("name")), mf.num("id"))
+		}
+	}
+	for _, a := range root.kids["actions"] {
+		pre := a.kids["preamble"][0]
+		check("action", "Action"+camelP4(pre.str("name")), pre.num("id"))
+	}
+	for _, m := range root.kids["meters"] {
+		pre := m.kids["preamble"][0]
+		check("meter", "Meter"+camelP4(pre.str("name")), pre.num("id"))
+	}
+	for _, c := range root.kids["counters"] {
+		pre := c.kids["preamble"][0]
+		check("counter", "Counter"+camelP4(pre.str("name")), pre.num("id"))
+	}
+	if len(res.Obls) == 0 {
+		res.Err = "p4info.txt declares nothing"
+	}
+	return res
+}
